@@ -67,7 +67,6 @@ func runC17(c *Ctx) {
 		internal := map[string]string{
 			"(*p2p/discover.Table).doRevalidate":     "bucket index produced by nodeToRevalidate (random, modulo the table size)",
 			"(*p2p/discover.Table).nodeToRevalidate": "bucket index taken from a random permutation of the bucket indexes",
-			"(*p2p/discover.Table).bucket":           "log-distance of two hashes, clamped to the bucket range by the preceding comparison",
 		}
 		pk := map[string]bool{"p2p": true, "p2p/discover": true, "aqua": true, "rlp": true, "p2p/netutil": true, "p2p/enr": true}
 		n := 0
@@ -104,6 +103,13 @@ func runC17(c *Ctx) {
 					}
 					it := f.tr.term(nil, idx, 0)
 					cons := fmt.Sprintf("%s: %s[%s] (table of %d)", shortFn(fn), f.tr.term(nil, x, 0), it, arr.Len())
+					if shortFn(fn) == "(*p2p/discover.Table).bucket" {
+						// index = logdist - bucketMinDistance - 1: in range only above the minimum distance (the remote
+						// chooses its node ID, hence the distance); logdist itself is at most the hash width
+						okB, w := allHave(f.At(ins), mustRe(`^discover\.logdist\(.*\) > 239$`))
+						c.Ob("C17-R1b", cons, c.Position(ins.Pos()), okB && mustRe(`^\(\(discover\.logdist\(.*\) - 239\) - 1\)$`).MatchString(it) && arr.Len() == 17, "guard: "+w)
+						continue
+					}
 					if why, frozen := internal[shortFn(fn)]; frozen {
 						c.Info("C17-R1b", cons+" (reviewed: index computed locally)", c.Position(ins.Pos()), why)
 						continue
@@ -333,6 +339,33 @@ func runC17(c *Ctx) {
 		c.Extra["lock_pairing_operations"] = o
 	})
 	c.Min("C17-R6", 20)
+
+	c.Rule("C17-R7", "what is written is what was encoded: the pooled encode buffer behind an outgoing message is recycled only when its reader hit EOF", func() {
+		sp := c.Prog.Package(c.Pkg("rlp").Types)
+		allowed := map[string]string{"rlp.Encode": "after the value was written out", "rlp.EncodeToBytes": "after the bytes were copied out",
+			"(*rlp.encReader).Read": "at EOF", "rlp.EncodeToReader": "on an encoding error, before a reader exists"}
+		n := 0
+		for _, fn := range c.SrcFns {
+			if fn.Pkg != sp {
+				continue
+			}
+			for _, cs := range callSites(fn, `^Pool\.Put$`) {
+				if !strings.Contains(c.termOf(fn, cs.Common().Args[0]), "encbufPool") {
+					continue
+				}
+				n++
+				why, ok := allowed[shortFn(fn)]
+				c.Ob("C17-R7", shortFn(fn)+" may hand an encode buffer back to the pool", c.Position(cs.Pos()), ok, why)
+			}
+		}
+		rd := c.Fn("rlp:(*encReader).Read")
+		c.MustBefore("C17-R7", rd, `^Pool\.Put$`, 1, []LitReq{
+			{Name: "encReader.Read recycles its buffer only after next() reported that no piece is left (EOF)", Re: `^(encReader#0\.next\(\)|encReader#0\.piece) == nil$`},
+			{Name: "the piece tested for EOF is the one next() just returned", Re: `^store:encReader#0\.piece=encReader#0\.next\(\)$`},
+		})
+		c.Ob("C17-R7", "encode-buffer recycling sites found", "", n >= 3, fmt.Sprintf("%d", n))
+	})
+	c.Min("C17-R7", 6)
 }
 
 var c17FrozenPanics = map[string]string{
